@@ -92,11 +92,50 @@ def stats(ctx, traces):
                                         consumer_calls=[c['name'] or c['is'] for c in e['calls']]))
     ctx.cov['per_op'] = st
     ctx.cov['samples'] = samples
+    return st
+
+
+def guard(ctx, st):
+    """A batch in which the code never did what the property is about proves nothing (only
+    meaningful once the batch has been accepted: a defect may be the reason)."""
     need = ('multi_page', 'link_followed', 'last_fallback', 'declined', 'errors', 'sub_with_start', 'unify', 'select', 'two_hops', 'escaped_start')
     missing = [k for k in need if not st[k]]
     if missing:
         raise vlib.Machinery('the batch never exercised: %s' % ', '.join(missing))
-    return st
+
+
+def canary(ctx, trace):
+    """Corrupts one recorded output of an accepted listing at a time; TLC must reject each."""
+    with open(trace) as f:
+        hdr = f.readline().rstrip('\n')
+        ev = None
+        for line in f:
+            if '"op":"list"' in line:
+                e = json.loads(line)
+                if len(e['reqs']) >= 2 and e['reqs'][0]['link'] and len(e['calls']) >= 2:
+                    ev = e
+                    break
+    if ev is None:
+        raise vlib.Machinery('canary: no paged listing in the trace')
+
+    def mut(name, f):
+        e = json.loads(json.dumps(ev))
+        f(e)
+        p = os.path.join(ctx.sub('canary'), name + '.ndjson')
+        vlib.write_trace(p, hdr, [['{"op":"reset"}', json.dumps(e)]])
+        return vlib.validate_trace(ctx, MODULE, CFG, p)['accepted']
+    if not mut('intact', lambda e: None):
+        raise vlib.Machinery('canary: the intact listing is rejected in isolation')
+    muts = dict(item=lambda e: e['calls'][1].__setitem__('x', e['calls'][1]['x'] + 1),
+                dropped_call=lambda e: e['calls'].pop(),
+                page_count=lambda e: e['reqs'][0].__setitem__('cnt', e['reqs'][0]['cnt'] - 1),
+                request_last=lambda e: e['reqs'][1].__setitem__('last', e['reqs'][1]['last'] + 1),
+                link_target=lambda e: e['reqs'][0].__setitem__('linklast', e['reqs'][0]['linklast'] - 2),
+                call_after_stop=lambda e: e.__setitem__('after', 1))
+    for name, f in muts.items():
+        if mut(name, f):
+            raise vlib.Machinery('canary: a listing with a corrupted %s is accepted' % name)
+    ctx.cov['canary'] = 'rejected: ' + ', '.join(muts)
 
 
 def run(ctx):
@@ -133,6 +172,10 @@ def run(ctx):
     ctx.log('executed %d listings (%d exported by TLC), %d page requests, %d consumer calls' % (
         st['cases'], len(cfgs), st['requests'], st['consumer_calls']))
     vlib.judge_traces(ctx, MODULE, CFG, traces, shard_lines=1400 if quick else 4000, label='listings vs OciList')
+    if not ctx.violations:
+        guard(ctx, st)
+        if not quick:
+            canary(ctx, t1)
     ctx.cov['tlc_exported_configurations'] = len(cfgs)
     ctx.assumptions += [
         'byte order of names = rank computed by the harness (sort.Strings); names valid per ociref',
